@@ -3,6 +3,8 @@ package main
 import (
 	"fmt"
 	"go/ast"
+	"go/token"
+	"sort"
 	"strings"
 
 	"golang.org/x/tools/go/packages"
@@ -189,4 +191,51 @@ func checkExportedMethodsFirst(c *Ctx, sp, rtabi *packages.Package) {
 	}
 	c.Check(ordered, "R15.7", "ssa.Builder.abiUncommonMethods emits exported methods first", fd.Pos(), "methods partitioned by exportedness before emission",
 		"methods are emitted in go/types' Id order (exported \"Name\" vs unexported \"pkgpath.name\"): for a package path that sorts before an exported name (it starts with a digit or an upper-case letter) an unexported method precedes the exported ones, and the first Xcount entries that reflect treats as the exported methods are the wrong ones")
+}
+
+// checkFieldFlagInheritance (R15.8): reflect's permission model - a field reached through an unexported
+// EMBEDDED struct is read-only only while it is itself embedded/unexported: Value.Field inherits flagStickyRO,
+// flagIndir and flagAddr from the struct value and must drop flagEmbedRO (then adds the field's own bits).
+func checkFieldFlagInheritance(c *Ctx, rfl *packages.Package) {
+	c.Rule("R15.8", "reflect.Value.Field inherits exactly flagStickyRO|flagIndir|flagAddr from the struct value (flagEmbedRO is not inherited), then adds flagEmbedRO / flagStickyRO for an unexported field by embedding", 1)
+	fd := findFunc(rfl, "Value.Field")
+	if fd == nil {
+		c.Undecided("R15.8", "reflect.Value.Field", 0, "function not found")
+		return
+	}
+	c.nfuncs++
+	var mask []string
+	found := false
+	ast.Inspect(fd.Body, func(n ast.Node) bool {
+		as, ok := n.(*ast.AssignStmt)
+		if !ok || len(as.Lhs) != 1 || len(as.Rhs) != 1 || exprStr(as.Lhs[0]) != "fl" || found {
+			return true
+		}
+		// v.flag & (A|B|C) | flag(kind)
+		ast.Inspect(as.Rhs[0], func(x ast.Node) bool {
+			be, ok := x.(*ast.BinaryExpr)
+			if !ok || be.Op != token.AND || strings.ReplaceAll(exprStr(be.X), " ", "") != "v.flag" {
+				return true
+			}
+			found = true
+			ast.Inspect(be.Y, func(y ast.Node) bool {
+				if id, ok := y.(*ast.Ident); ok && strings.HasPrefix(id.Name, "flag") {
+					mask = append(mask, id.Name)
+				}
+				return true
+			})
+			return false
+		})
+		return true
+	})
+	sort.Strings(mask)
+	got := strings.Join(mask, "|")
+	roCall := strings.Contains(strings.ReplaceAll(srcOf(fd.Body), " ", ""), "v.flag.ro()")
+	c.Check(found && got == "flagAddr|flagIndir|flagStickyRO" && !roCall, "R15.8", "reflect.Value.Field inherited permission bits", fd.Pos(), "v.flag & (flagStickyRO|flagIndir|flagAddr)",
+		"the field value inherits "+got+map[bool]string{true: " plus v.flag.ro()", false: ""}[roCall]+": exported fields reached through an unexported embedded struct become read-only (CanSet/CanInterface false), so fmt no longer calls their String methods")
+}
+
+func init() {
+	addMutant(Mutant{Prop: "C15", Name: "field-inherits-embed-ro", File: "runtime/internal/lib/reflect/value.go",
+		Old: "\tfl := v.flag&(flagStickyRO|flagIndir|flagAddr) | flag(kind)", New: "\tfl := v.flag&(flagIndir|flagAddr) | v.flag.ro() | flag(kind)", Expect: "R15.8"})
 }
